@@ -107,8 +107,14 @@ def ob_key(depth: int, s0: bool, s1: bool, s2: bool, v0: int, v1: int, v2: int,
     H.assume(depth <= maxd)
 
     def conv(v):
+        # falsy settings are settings too: max_nbytes=None / 0 (never memmap), mmap_mode=None, verbose=0
         if key in STR_VALUES:
-            return STR_VALUES[key][H.select(v % 2, 0, 1)]
+            r = H.select(v % 3, 0, 2)
+            return None if (r == 2 and key == "mmap_mode") else STR_VALUES[key][r % 2]
+        if key == "max_nbytes" and v % 7 == 0:
+            return None
+        if key in ("max_nbytes", "verbose") and v % 7 == 1:
+            return 0
         return v
 
     d = H.select(depth, 0, maxd)
